@@ -7,6 +7,28 @@ import json, os, subprocess
 ROOT = os.path.dirname(os.path.dirname(os.path.abspath(__file__)))
 
 CHECKS = {
+    "C09": dict(cat="exploration", sec="5 C09",
+                tech="runtime monitor: generator-classified (transaction, document) histories through the real DAG verifiers + did:nuts ambassador + didstore; before/after resolvability snapshots; global authorisation invariant on every accepted update",
+                text="Real dag.State with the production verifiers (kid resolution through the didstore), real didstore, real didnuts resolver/key resolvers and the real ambassador subscribed the way network.Subscribe does it. "
+                     "The harness signs as anyone: creations (correct/foreign key, DID != thumbprint forms), updates by own capabilityInvocation key, non-capInv keys, removed/demoted keys over 2-4 versions with every prevs ordering, "
+                     "controllers (sole/shared/two, removed or deactivated keys, former controllers), chains of depth 1-6, 25 validator/DID-core rules as creation and update, seeded random walks. Each case is MUST-ACCEPT / MUST-REJECT / UNSPECIFIED from "
+                     "the property text and the generator's shadow; a rejection must leave every resolvable answer (latest, by tx, by hash, by time, key resolvers per relation, conflicted set) identical; every accepted update is checked against the invariant "
+                     "'signer is a capabilityInvocation key of a controller of the version it succeeds'; every accepted creation against DID == thumbprint.",
+                note="Forks from old versions, one branch of a conflict, no-prev-resolves, and updates naming only a controller's stale version are classed UNSPECIFIED; liveness (MUST-ACCEPT) demanded only for plain shapes."),
+    "C13": dict(cat="fault_enumeration", sec="5 C13",
+                tech="runtime monitor: step-boundary fault/stop enumeration (verifhook points in transactionHelper) over real SqlManager + didweb + didnuts managers; all-or-nothing snapshot oracle after restart + aged rollback sweep",
+                text="Real didsubject.SqlManager on a migrated SQLite DB, real key store, real didweb manager and the real didnuts manager behind a fault-injecting decorator over a scripted network that signs real DAG transactions, keeps the publish ledger and "
+                     "delivers to the real ambassador + didstore. Every operation of every seeded sequence (create, add/update/delete service, add verification method, deactivate; 1-3 subjects) runs once per fault site (14: after tx1, before/after each method's Commit, "
+                     "commit error, network refusal, stop inside the publish delivered/undelivered, before tx2, sweep in flight). After each: restart, ageing of updated_at by SQL, the real Rollback sweep, snapshot comparison, retry. Oracle: unchanged or advanced by exactly one "
+                     "version on every DID together; empty change log; consecutive growing versions; abandoned key ids never resolvable or published; ListDIDs nothing or one full resolving set; retry succeeds; other subjects untouched.",
+                note="Process stop = sentinel panic unwinding out of transactionHelper (manager keeps no state outside SQL/key store) followed by a fresh manager on the same DB; SQLite only."),
+    "C20": dict(cat="exploration", sec="5 C20",
+                tech="runtime monitor: covering arrays of security-relevant configuration run through the real `nuts server` start-up in child processes + action-level probes + recording listeners for outbound requests; documented-list reference predicate",
+                text="Each configuration (strictmode x url x tls.* x crypto.storage x storage.sql.connection x contract validators x irma scheme manager x jsonld allow list x didmethods x delivery channel; pairwise in quick, 3-wise in thorough, plus every single insecure / "
+                     "moved-key / CLI-secret deviation with a non-strict twin) starts the assembled system in its own child process; the child records refused/running, whether /status was ever reachable and whether it held a listening socket at refusal, then probes dummy "
+                     "signing means, the JSON-LD loader and 9 URL classes through every http/IAM client constructor against recording plain/TLS listeners. Part 2 drives http/client directly (480 cases incl. redirect chains ending on http). Oracle: reference predicate written "
+                     "from the documented strict-mode list; strict+insecure refused before listeners accept, non-strict starts, moved keys and CLI secrets refused in both modes, no plain-HTTP request ever attempted in strict mode. Pair coverage is measured.",
+                note="IRMA runs against the signed empty scheme shipped in the repository; vault is a fake answering the token self-lookup; options whose insecurity the documents do not list are unspecified."),
     "C06": dict(cat="exploration", sec="5 C06",
                 tech="runtime monitor: generator-known admission reference model vs real dag.State (production verifiers, didstore-backed kid resolution); byte-level store snapshots; hook-steered concurrent histories checked with porcupine; race detector",
                 text="Real dag.State on bbolt with the previous-transactions and signature verifiers, kid resolution through dag.SourceTXKeyResolver over a real didstore (documents with key rotation), five persistent subscribers. "
